@@ -54,9 +54,9 @@ CHECKS = {
     'C12': ('M', "All paths of one iteration of the poller loop: the monotonic (COARSE) clock is read before chronyd is queried, exactly once, and the as-of instant attached to a report is that reading; "
                  "all return paths of ClockErrorBound::now(): REALTIME is read first, the monotonic clock second, and the interval is centred on the first reading. The order is structural, so it holds "
                  "for every delay between the steps.", NOTE_D, TECH_M),
-    'C13': ('M', "All combinations of environment answers in one iteration of the real poller loop (clock read, chronyd answer, PHC configured, reference ids, PHC read, grace period): exactly one message to "
+    'C13': ('M+K', "All combinations of environment answers in one iteration of the real poller loop (clock read, chronyd answer, PHC configured, reference ids, PHC read, grace period): exactly one message to "
                  "the ShmWriter mailbox, of the documented kind, with the PHC bound added iff the ids match; and the grace-period arithmetic of ClockErrorBoundPoller for all instants of a symbolic "
-                 "monotone clock (outside right after start; inside iff less than 5 s since the last tracking reply; only a tracking reply records the instant). Socket I/O is environment.", NOTE_D, TECH_M),
+                 "monotone clock (outside right after start; inside iff less than 5 s since the last tracking reply; only a tracking reply records the instant); the configured reference id: a Kani/CBMC harness proves refid_to_u32 is the big-endian packing of its bytes for every ASCII string of <= 4 bytes and an error for 5 (unwind 6). Socket I/O is environment.", NOTE_D + " Kani 0.68 (CBMC 6.11, cadical) on the compiled crate with the tracing shims for the refid harness.", TECH_M + "; Kani bounded model checking for refid_to_u32"),
     'C14': ('M', "All inputs of the stated domain: every panic/overflow site reachable from now() (asserts of the overflow-checked MIR, nix's range panics) is proved unreachable, and the error "
                  "kinds are proved to be returned exactly under their documented conditions.", NOTE_NOW, TECH_M),
     'C16': ('M', "Every header (all 2^128 values of the 16 header bytes, as the four typed fields they are in bijection with) x every read length -1..16 x every success/failure of open, read and mmap: "
@@ -106,6 +106,7 @@ def main():
              'kind_free_text': 'MIR symbolic executor (Python) -> z3: nightly --emit=mir dump of /repo\'s crates and their dependencies, regenerated on every run'},
             {'name': 'W', 'path': 'mirsym/seqlock.py mirsym/wmm.py vcheck/seqlock_model.py', 'serves_properties': sorted(k for k, v in CHECKS.items() if 'W' in v[0]),
              'kind_free_text': 'axiomatic RC11 encoding (single writer, read-only readers) over event programs extracted from the MIR by M'},
+            {'name': 'K', 'path': 'kani/', 'serves_properties': ['C13'], 'kind_free_text': 'Kani 0.68 / CBMC harness crate (path dependency on /repo, tracing shims): iterator/Vec/closure code that engine M does not interpret'},
             {'name': 'R', 'path': 'replay/', 'serves_properties': sorted(CHECKS),
              'kind_free_text': 'native replay harness: real crates (dev and release), virtual clock by interposing clock_gettime, scripted observations through the cfg-gated atomic shim'},
         ],
